@@ -152,6 +152,11 @@ func heldMarshalCheck(k *K, marshal []func() ([]byte, error), write []func(io.Wr
 		}
 		held[i] = txt
 	}
+	// A write that fails half-way, before the real ones: whatever it leaves
+	// behind must not show up in later output.
+	if len(write) > 0 && len(held[0]) > 1 {
+		write[0](&limitWriter{k: len(held[0]) / 2})
+	}
 	var all bytes.Buffer
 	for i, w := range write {
 		var one bytes.Buffer
@@ -167,6 +172,21 @@ func heldMarshalCheck(k *K, marshal []func() ([]byte, error), write []func(io.Wr
 				i, len(write), len(held[i]), one.Len(), j)
 		}
 		all.Write(one.Bytes())
+	}
+	// The returned slices are the caller's: overwriting them must not affect
+	// what MarshalText returns next.
+	for i := range held {
+		for j := range held[i] {
+			held[i][j] = '#'
+		}
+	}
+	if len(marshal) > 0 {
+		again, err := marshal[0]()
+		var one bytes.Buffer
+		write[0](&one)
+		if err != nil || !bytes.Equal(again, one.Bytes()) {
+			k.Failf("marshal-after-scribble", "after the caller overwrote earlier MarshalText results, MarshalText of record 0 returns %.200q, Write produces %.200q", again, one.Bytes())
+		}
 	}
 	k.Count("held_marshal_results", int64(len(held)))
 	return all.Bytes()
